@@ -79,6 +79,10 @@ func oscmdClientScenarios(c *gen.Ctx) []any {
 	ins := []any{
 		oscmdClientIn{"exit0-at-once", cc.VerifOSClientSpec{Script: "exit 0", Small: 3, TimeoutS: 20}},
 		oscmdClientIn{"exit3-after-reading-a-bit", cc.VerifOSClientSpec{Script: "head -c 6 >/dev/null; exit 3", Small: 3, TimeoutS: 20}},
+		// the same two with a sender that is certainly late: the process is gone when the (next)
+		// request is written to it
+		oscmdClientIn{"exit0-at-once-late-sender", cc.VerifOSClientSpec{Script: "exit 0", Small: 3, TimeoutS: 20, DelayMs: 300}},
+		oscmdClientIn{"exit3-after-reading-a-bit-slow-sender", cc.VerifOSClientSpec{Script: "head -c 6 >/dev/null; exit 3", Small: 3, TimeoutS: 20, GapMs: 250}},
 		// a client that ignores SIGTERM, writes garbage and never drains its stdin while a large
 		// request is being written: the runner must still terminate everything (SIGKILL after the
 		// grace period) — costs about 6 s
